@@ -306,3 +306,24 @@ PROPS["C08"] = {
         plain_unit("replay", "^TestC08_Replay$", replay=True),
     ],
 }
+
+PROPS["C16"] = {
+    "level": "fault_enumeration",
+    "rule": ("a generated persisted history (as C07) with rotations that compact (admin REWRITEAOF path) and rotations whose compaction does not run (so that 1..4 append files "
+             "plus an existing rewrite file accumulate) is quiesced and its directory copied (pre-compaction image); then ONE compaction runs synchronously and the hook points "
+             "of the rewrite path copy the directory after every file-system mutation it performs (rewrite.aof.tmp written, each input removed, each value file removed, the two "
+             "renames, old append file closed / new one opened) - every crash point of that compaction is enumerated. Every image and the final directory are recovered by a fresh "
+             "leader: the in-package snapshot must equal the one recovered from the pre-compaction image, also when recovered a second time from what the first recovery left "
+             "behind (it compacts again at start-up); the final directory must also recover the live persisted state. evaluations = histories; class 'crash images' counts the "
+             "enumerated crash points. Non-trivial: >=2 append files compacted, an existing rewrite file, and a released hold in the inputs. Distinct = FNV-64 of the history."),
+    "assumptions": [
+        "the compaction under test runs in the harness goroutine (same body as the goroutine the server starts); compactions racing with appends are not generated",
+        "the directory image at a hook point (after a completed system call) is the crash state",
+        "crash images between the removal of the inputs and the renames are skipped while the two listed known findings are open (counted in evidence); the C07 known findings are excluded by construction",
+    ],
+    "units": [
+        rapid_unit("compaction", "^TestC16_Compaction$", quick={"checks": 480, "shards": 16, "timeout_s": 420, "shrinktime": "45s"},
+                   thorough={"checks": 16000, "shards": 16, "timeout_s": 3000, "shrinktime": "90s"}),
+        plain_unit("replay", "^TestC16_Replay$", replay=True),
+    ],
+}
